@@ -136,3 +136,23 @@ impl actix::Handler<VerifDumpNaming> for crate::naming::core::NamingActor {
         )
     }
 }
+
+/// the config actor's history-id sequence: `next` draws exactly as the leader-side `ConfigAsyncCmd::Add`
+/// does (`sequence.next_state()`), `end` reads the high-water mark a snapshot would store
+#[derive(actix::Message)]
+#[rtype(result = "(u64, Option<u64>)")]
+pub struct VerifConfigSeq {
+    pub draw: bool,
+}
+
+impl actix::Handler<VerifConfigSeq> for crate::config::core::ConfigActor {
+    type Result = actix::MessageResult<VerifConfigSeq>;
+
+    fn handle(&mut self, msg: VerifConfigSeq, _ctx: &mut Self::Context) -> Self::Result {
+        if msg.draw {
+            actix::MessageResult(self.verif_sequence().next_state().unwrap_or((0, None)))
+        } else {
+            actix::MessageResult((self.verif_sequence().get_end_id(), None))
+        }
+    }
+}
